@@ -92,6 +92,10 @@ def lit(v):
     return str(v["v"])
 
 
+STREAM_SDL = ("directive @stream(if: Boolean! = true, label: String, initialCount: Int! = 0) on FIELD\n"
+              "directive @defer(if: Boolean! = true, label: String) on FRAGMENT_SPREAD | INLINE_FRAGMENT\n")
+
+
 def sdl():
     out = []
     for n, d in TYPES.items():
@@ -123,11 +127,27 @@ _schema = None
 IS_TYPE_OF_HOOK = None      # set by C03: (type name, thunk, info) -> bool or awaitable
 
 
-def schema():
+_schema_stream = None
+
+
+def schema_with_stream():
+    """the same schema with the experimental directives defined (subscription documents carry switched-off @stream)"""
+    global _schema_stream
+    if _schema_stream is None:
+        global _schema
+        keep, _schema = _schema, None
+        try:
+            _schema_stream = schema(STREAM_SDL)
+        finally:
+            _schema = keep
+    return _schema_stream
+
+
+def schema(prefix=""):
     global _schema
     if _schema is None:
         from graphql import build_schema
-        _schema = build_schema(sdl())
+        _schema = build_schema(prefix + sdl())
         for tn in ("A", "B"):
             def is_type_of(value, info, tn=tn):
                 def thunk():
@@ -405,6 +425,9 @@ def prune(oc, names):
     return oc
 
 
+LIST_FIELDS = {"l", "ln", "li", "lli", "lu", "lin", "la", "lb"}
+
+
 def var_value(rnd, t):
     """a provided variable value the variable's type accepts (lists: a list, or a single value that coercion wraps)"""
     if t[0] == "NN":
@@ -462,6 +485,16 @@ def gen_subscription_case(seed, depth=2):
         if vd["type"][0] != "NN" and rnd.random() < 0.2:
             continue
         variables[vd["name"]] = var_value(rnd, vd["type"])
+    # a switched-off @stream on list fields (a disabled directive must behave as if it were absent - also in subscriptions)
+    def switch_off(sels):
+        for sl in sels:
+            if sl["k"] == "F" and sl["name"] in LIST_FIELDS and rnd.random() < 0.5:
+                sl["raw"] = rnd.choice([" @stream(if: false)", " @stream(if: false, initialCount: 1)", ' @stream(label: "s", if: false)'])
+            if "sel" in sl:
+                switch_off(sl["sel"])
+    switch_off([root_field])
+    for fr in g.frags.values():
+        switch_off(fr["sel"])
     doc = {"sel": [root_field], "frags": g.frags or {"_": {"on": "Query", "sel": []}}, "vardefs": vardefs}
     names = doc_field_names(doc)
     events = [prune(gen_obj(rnd, "Subscription", depth), names) for _ in range(rnd.choice([0, 1, 2, 3, 4]))]
@@ -477,7 +510,8 @@ def render_sel(sels):
             args = ""
             if s["args"]:
                 args = "(" + ", ".join(f"{n}: {lit(v)}" for n, v in s["args"]) + ")"
-            out.append((s["alias"] + ": " if s["alias"] else "") + s["name"] + args + dirs + (" { " + render_sel(s["sel"]) + " }" if s["sel"] else ""))
+            # "raw": directives that are switched off (e.g. @stream(if: false)) - to the specification the field is as without them
+            out.append((s["alias"] + ": " if s["alias"] else "") + s["name"] + args + dirs + s.get("raw", "") + (" { " + render_sel(s["sel"]) + " }" if s["sel"] else ""))
         elif s["k"] == "I":
             out.append("..." + (" on " + s["on"] if s["on"] else "") + dirs + " { " + render_sel(s["sel"]) + " }")
         else:
